@@ -155,6 +155,24 @@ STATEFUL_PREFIXES = ("black_it.samplers", "black_it.schedulers", "black_it.calib
 MUTATING = {"append", "extend", "insert", "pop", "remove", "clear", "update", "setdefault", "popitem", "add", "discard", "sort", "__setitem__"}
 
 
+def _is_value_memo(prog, f, name: str) -> bool:
+    """Every store into the module-level dict `name` (anywhere in f's module) is a value-memo store, and there is at least one."""
+    from ..util import is_value_memo_store
+    stores = []
+    for g in prog.all_functions():
+        if g.module is not f.module:
+            continue
+        for x in walk_scope(g.node):
+            if isinstance(x, ast.Assign) and any(isinstance(t, ast.Subscript) and isinstance(t.value, ast.Name) and t.value.id == name for t in x.targets):
+                stores.append((g, x))
+            elif isinstance(x, (ast.AugAssign, ast.AnnAssign)) and isinstance(x.target, ast.Subscript) and isinstance(x.target.value, ast.Name) and x.target.value.id == name:
+                return False
+            elif isinstance(x, ast.Call) and isinstance(x.func, ast.Attribute) and isinstance(x.func.value, ast.Name) and x.func.value.id == name \
+                    and x.func.attr in ("update", "setdefault", "__setitem__"):
+                return False
+    return bool(stores) and all(is_value_memo_store(prog, g, x, name) for g, x in stores)
+
+
 def r2a_global_state(ctx: Context) -> None:
     prog = ctx.prog
     n = 0
@@ -193,6 +211,9 @@ def r2a_global_state(ctx: Context) -> None:
                 while isinstance(base, ast.Subscript):
                     base = base.value
                 if isinstance(base, ast.Name) and base.id in consts and base.id not in local_names:
+                    if x.func.attr in ("clear", "pop", "popitem") and _is_value_memo(prog, f, base.id):
+                        ctx.ok("R2.global-state", f"{f.qualname.split(':')[1]}:memo-eviction:{base.id}", f"`{src(x)[:60]}` only drops entries of a memo keyed by value")
+                        continue
                     ctx.fail("R2.global-state", f"{f.qualname.split(':')[1]}:module-mutation:{base.id}", f"`{src(x)[:80]}` mutates module-level `{base.id}`", f, x)
                 if isinstance(base, ast.Attribute) and is_self_attr(base, f.self_name) and f.cls is not None:
                     # instance attribute or a mutable class-level default shared between instances?
